@@ -239,7 +239,7 @@ SESSION_ASSUME = ["TLC/SANY, CommunityModules", "spec/UriSession.tla (object-lev
                   "harness projection; caller buffers are separate read-only mappings ending at a PROT_NONE page, released buffers become inaccessible (a bad access is an event the specification has no action for)"]
 def _session(res, pid, tier, seed, out, also=()):
     exe = vlib.build("asan")
-    depth = {"quick": 6, "thorough": 7}[tier]
+    depth = {"quick": 6, "thorough": 8}[tier]
     scripts = os.path.join(out, "scripts.ndjson")
     if os.path.exists(scripts): os.remove(scripts)
     import concurrent.futures
